@@ -285,3 +285,28 @@ fn test_invmod() {
         U1024::from_str("22160499496729207058").unwrap()
     );
 }
+
+// Verification hooks (add-only; compiled only with `--cfg yamaquasi_verif`).
+#[cfg(yamaquasi_verif)]
+pub mod verif_hooks {
+    use super::*;
+
+    pub fn reduce64(x: u64, y: u64) -> (i64, i64, i64, i64) {
+        super::reduce64(x, y)
+    }
+    pub fn top64(digs: &[u64], bits: u32) -> u64 {
+        super::top64(digs, bits)
+    }
+    pub fn mulword<const N: usize>(w: u64, sz: usize, n: &BUint<N>) -> BUint<N> {
+        super::mulword(w, sz, n)
+    }
+    pub fn dot_product<const N: usize>(
+        sz: usize,
+        a: i64,
+        x: &BUint<N>,
+        b: i64,
+        y: &BUint<N>,
+    ) -> (BUint<N>, bool) {
+        super::dot_product(sz, a, x, b, y)
+    }
+}
